@@ -54,7 +54,7 @@ CHECKS = {
  "C19": ("inverse-function and anchored-literal monitor with near-miss battery; Unescape read before and after a rejected text", "3 C19",
          "Unescape(Escape(s)) == s, Escape(s) compiles under literal-preserving option sets, matches s and rejects up to 60 near-misses; thorough covers every code point alone and followed by a hex digit.",
          "Valid UTF-8 strings only."),
- "C20": ("metamorphic monitor: case flips of input letters and of pattern letters / class members / range endpoints under IgnoreCase; exhaustive families over all 1,397 simple case pairs (12 constructs) and 518 named classes", "3 C20",
+ "C20": ("metamorphic monitor: case flips of input letters and of pattern letters / class members / range endpoints under IgnoreCase; exhaustive families over all 1,397 simple case pairs (12 constructs, range windows) and 518 named classes", "3 C20",
          "Match position and captures must be invariant under flips of simple-pair letters, through rune and string entry points, incl. prefix-search shapes, negated classes, subtractions and back-references.",
          "Only letters with a simple upper/lower fold orbit are flipped; seven binary / break properties that are not case-closed are a known finding (K5)."),
  "C15": ("executable specification run leftwards vs engine with RightToLeft; mirror oracle: pattern left-to-right vs its mirror image RightToLeft on the reversed text (single finds and FindNextMatch chains, full syntax)", "3 C15",
